@@ -55,7 +55,7 @@ def run(P, tier="quick"):
             if c.k != "BinaryOperator" or c.op != "==":
                 continue
             a, b = c.kids[0].strip(), c.kids[1].strip()
-            if a.k == "BinaryOperator" and a.op == "=":
+            while a.k == "BinaryOperator" and a.op == "=":    # also `p = q = calloc(..)`
                 a = a.kids[1].strip()
             if a.k != "CallExpr" or not (b.cv == -1 or is_null(b)):
                 continue
